@@ -167,7 +167,7 @@ def oStep (s : OSt) : Ev → OSt
     let hs := s.hooks ++ [h]
     let s := { s with hooks := hs }
     if isPrefixOf' hs [.started, .draining, .stopped] then s else s.flag "c15-hook-order"
-  | .lost .. | .dropped _ | .panicked | .portClosed _ => s
+  | .lost .. | .dropped _ | .panicked | .portClosed _ | .handled .. => s
   | .snap up q act _cap live wq =>
     let blocked := up && q.isNone
     let s := if !up && s.up && !s.hooks.contains .stopped then s.flag "c15-stopped-without-hook" else s
